@@ -35,6 +35,7 @@ var (
 	harness = flag.String("harness", "", "harness directory (relative to /verif)")
 	noAcc   = flag.Bool("noaccess", false, "do not instrument plain memory accesses")
 	drop    = flag.String("drop", "", "comma separated repo files (relative) replaced by stubs: file=stubfile")
+	dropFn  = flag.String("dropfuncs", "srv:HTTP,srv:Cmd,srv:sendSignal", "comma separated pkg:Func top-level functions removed from the instrumented build (they hand a context to net/http / os/exec)")
 )
 
 type pkgInfo struct {
@@ -204,7 +205,24 @@ func instrument(p *pkgInfo) error {
 		rw.access = false // harness code is not subject to the race oracle
 	}
 	rw.findShared()
+	dropped := map[string]bool{}
+	for _, d := range strings.Split(*dropFn, ",") {
+		parts := strings.SplitN(d, ":", 2)
+		if len(parts) == 2 && (p.path == repoMod+"/"+parts[0] || (parts[0] == "." && p.path == repoMod)) {
+			dropped[parts[1]] = true
+		}
+	}
 	for i, f := range p.files {
+		if len(dropped) > 0 {
+			var keep []ast.Decl
+			for _, d := range f.Decls {
+				if fd, ok := d.(*ast.FuncDecl); ok && fd.Recv == nil && dropped[fd.Name.Name] {
+					continue
+				}
+				keep = append(keep, d)
+			}
+			f.Decls = keep
+		}
 		rw.file(f)
 		out := filepath.Join(*work, strings.ReplaceAll(p.path, "/", "_"), filepath.Base(p.names[i]))
 		if err := os.MkdirAll(filepath.Dir(out), 0o755); err != nil {
